@@ -363,6 +363,30 @@ fn run_client(case: &Case) -> Result<Outcome, V> {
                 key: OrderKey { exchange: req.key.exchange, instrument: &req.key.instrument, strategy: req.key.strategy.clone(), cid: req.key.cid.clone() },
                 state: req.state.clone(),
             };
+            if case.impatient && n % 7 == 5 {
+                // the caller ABANDONS the request right after handing it over (its future is polled once and dropped:
+                // a cancelled task, a select! that chose another branch) - before the exchange has even looked at it.
+                // The order reached the venue all the same.
+                let mut fut = Box::pin(client.open_order(req_ref));
+                let polled = futures::poll!(fut.as_mut());
+                drop(fut);
+                out.steps += 1;
+                if polled.is_ready() {
+                    return Err(("HARNESS_abandoned_request_answered_at_once", format!("request #{n}")));
+                }
+                out.cells.push("request_abandoned_before_the_exchange_processed_it".into());
+                if let Decision::Accept { asset, amount, fee_quote } = led.decide(r) {
+                    out.accepted += 1;
+                    *led.bal.get_mut(&asset).unwrap() -= amount;
+                    led.accepted.push((n, fee_quote));
+                    expected_events.push(("balance".into(), format!("{asset}={}", led.bal[&asset])));
+                    expected_events.push(("trade".into(), format!("cid{n}:*:{}", fee_quote.normalize())));
+                    out.cells.push("accepted_order_whose_response_nobody_awaited".into());
+                } else {
+                    out.rejected += 1;
+                }
+                continue;
+            }
             if case.impatient && case.latency_ms >= 2 && n % 3 == 1 {
                 // the caller gives up half-way through the exchange's latency and drops the response future
                 let gave_up = tokio::time::timeout(Duration::from_millis(case.latency_ms / 2), client.open_order(req_ref)).await.is_err();
@@ -687,6 +711,7 @@ fn main() {
             "trade_query_with_non_monotone_request_times",
             "accepted_order_whose_response_nobody_awaited",
             "caller_disconnected_before_the_latency_of_its_last_accepted_order_elapsed",
+            "request_abandoned_before_the_exchange_processed_it",
             "burst_of_orders_sent_before_any_response_was_awaited",
             "burst_with_several_accepted_orders_spending_one_asset",
         ] {
